@@ -438,7 +438,7 @@ def reroute_body(case, ctx):
 
 def shards(tier, seed):
     out = [{'part': 'kinds', 'variants': [v]} for v in [(False, False), (False, True), (True, False), (True, True)]]
-    n = 150 if tier == 'quick' else 8000
+    n = 150 if tier == 'quick' else 30000
     out += [{'part': 'stacks', 'n': n} for _ in range(6)]
     out += [{'part': 'reroute', 'n': n} for _ in range(6)]
     return out
